@@ -270,7 +270,13 @@ def _check_backend_faults(ctx, rep):
             be = fakes3.make_backend("tbl", True, fake)
             be.write_file("data/a", b"hello")
             clean = fn(be)
-            for plan in ([], ["T"], ["T", "T"], ["T"] * 5, ["T"] * 6, ["P"], ["T", "P"], ["T", "T", "P"]):
+            plans = [[], ["T"], ["T", "T"], ["T"] * 5, ["T"] * 6, ["P"], ["T", "P"], ["T", "T", "P"]]
+            # the same with other spellings of transient / permanent errors (bare numeric HTTP codes are what HEAD requests produce)
+            for tcode in ("InternalError", "RequestTimeout", "429", "408", "503", "500"):
+                plans += [[("T", tcode)], [("T", tcode)] * 5]
+            for pcode in ("403", "401", "InvalidAccessKeyId", "NoSuchBucket"):
+                plans += [[("P", pcode)], ["T", ("P", pcode)]]
+            for plan in plans:
                 fake2 = fakes3.FakeS3()
                 be2 = fakes3.make_backend("tbl", True, fake2)
                 be2.write_file("data/a", b"hello")
@@ -282,27 +288,30 @@ def _check_backend_faults(ctx, rep):
                     state["n"] += 1
                     if state["left"]:
                         f = state["left"].pop(0)
-                        raise fakes3.client_error("SlowDown" if f == "T" else "AccessDenied", op)
+                        kind_, code_ = (f, "SlowDown" if f == "T" else "AccessDenied") if isinstance(f, str) else f
+                        raise fakes3.client_error(code_, op)
                 fake2.hook = hook
                 rep.evaluations += 1
-                rep.nontrivial(["fault", name, plan])
+                rep.nontrivial(["fault", name, [str(x) for x in plan]])
                 try:
                     got = fn(be2)
                     outcome = ("ok", got)
                 except Exception as e:      # noqa: BLE001
                     outcome = ("raise", getattr(e, "response", {}).get("Error", {}).get("Code", type(e).__name__))
-                nT = len([p for p in plan if p == "T"])
-                if "P" in plan:
-                    if outcome != ("raise", "AccessDenied") or state["n"] != plan.index("P") + 1:
+                kinds_ = [p if isinstance(p, str) else p[0] for p in plan]
+                pcode_ = next((("AccessDenied" if isinstance(p, str) else p[1]) for p in plan if (p if isinstance(p, str) else p[0]) == "P"), None)
+                nT = len([k_ for k_ in kinds_ if k_ == "T"])
+                if "P" in kinds_:
+                    if outcome != ("raise", pcode_) or state["n"] != kinds_.index("P") + 1:
                         rep.violate("C20:permanent-error-retried-or-swallowed", f"{name} under {plan}: {outcome}, {state['n']} requests",
-                                    {"kind": "fault", "op": name, "plan": plan})
+                                    {"kind": "fault", "op": name, "plan": [str(x) for x in plan]})
                 elif nT <= 5:
                     if outcome != ("ok", clean):
                         rep.violate("C20:transient-not-masked", f"{name} under {plan}: {outcome} instead of {clean!r}",
-                                    {"kind": "fault", "op": name, "plan": plan})
+                                    {"kind": "fault", "op": name, "plan": [str(x) for x in plan]})
                 else:
                     if outcome[0] != "raise":
-                        rep.violate("C20:exhausted-retries-swallowed", f"{name} under {plan}: {outcome}", {"kind": "fault", "op": name, "plan": plan})
+                        rep.violate("C20:exhausted-retries-swallowed", f"{name} under {plan}: {outcome}", {"kind": "fault", "op": name, "plan": [str(x) for x in plan]})
                 rep.distribution["fault:" + outcome[0]] += 1
 
 
@@ -430,6 +439,37 @@ def _listing_pages(ctx, rep):
         shutil.rmtree(base, ignore_errors=True)
 
 
+def _listing_page_faults(ctx, rep):
+    """a transient error in the MIDDLE of a paged listing (pages of 2 keys): the retry must not leave duplicates or holes"""
+    with fakes3.NoSleep():
+        for nobj in (3, 5, 8):
+            for fail_page in range(1, (nobj + 1) // 2 + 1):
+                for nfaults in (1, 2):
+                    fake = fakes3.FakeS3()
+                    be = fakes3.make_backend("tbl", True, fake)
+                    for i in range(nobj):
+                        be.write_file(f"data/part-{i:04d}", b"x")
+                    want = sorted(f"data/part-{i:04d}" for i in range(nobj))
+                    state = {"page": 0, "left": nfaults}
+
+                    def hook(phase, op, key, kw, state=state, fail_page=fail_page):
+                        if phase == "before" and op == "list-page":
+                            state["page"] += 1
+                            if state["page"] >= fail_page and state["left"] > 0 and kw.get("index", 0) + 1 == fail_page:
+                                state["left"] -= 1
+                                raise fakes3.client_error("SlowDown", "ListObjectsV2")
+                    fake.hook = hook
+                    rep.evaluations += 1
+                    rep.nontrivial(["listing-page-fault", nobj, fail_page, nfaults])
+                    try:
+                        got = ("ok", sorted(be.list_files("data")))
+                    except Exception as e:      # noqa: BLE001
+                        got = ("raise", type(e).__name__)
+                    if got != ("ok", want):
+                        rep.violate("C20:transient-not-masked", f"{nobj} objects, {nfaults} transient fault(s) on listing page {fail_page}: list_files → {str(got)[:160]}",
+                                    {"kind": "listing-page-fault", "objects": nobj, "page": fail_page, "faults": nfaults})
+
+
 def _overwrite_then_reopen(ctx, rep):
     """one backend instance, one key: write, open_seekable + read, overwrite with another length, open_seekable + read again"""
     from datashard.storage_backend import LocalStorageBackend
@@ -485,5 +525,6 @@ def run(ctx, model_ok):
     _check_backend_faults(ctx, rep)
     _listing_pages(ctx, rep)
     _overwrite_then_reopen(ctx, rep)
+    _listing_page_faults(ctx, rep)
     _twin(ctx, rep, model_ok)
     return rep
